@@ -71,6 +71,23 @@ def k_asyncgen_asend(inner):
         await a.asend(None)
         await a.asend(5)
     return outer
+def k_asyncgen_asend_agen(inner):
+    # the value SENT is itself an async generator (suspended at a yield): the chain follows the generator being driven, not the
+    # one that travels as the sent value
+    async def decoy():
+        yield 0
+        yield 1
+    async def ag():
+        x = yield 0
+        await inner()
+        yield 1
+    async def outer():
+        d = decoy()
+        await d.asend(None)
+        a = ag()
+        await a.asend(None)
+        await a.asend(d)
+    return outer
 def k_asyncgen_athrow(inner):
     async def ag():
         try:
@@ -113,7 +130,7 @@ def k_async_with_enter(inner):
         async with M() as m:
             pass
     return outer
-KINDS = [k_await_coro, k_await_gencoro, k_obj_await_wrapper, k_obj_await_gen, k_asyncgen_anext, k_asyncgen_asend, k_asyncgen_athrow, k_asyncgen_aclose,
+KINDS = [k_await_coro, k_await_gencoro, k_obj_await_wrapper, k_obj_await_gen, k_asyncgen_anext, k_asyncgen_asend, k_asyncgen_asend_agen, k_asyncgen_athrow, k_asyncgen_aclose,
          k_async_with_exit, k_async_with_enter]
 if sys.version_info < (3, 12):
     # CPython <= 3.11: an exception thrown into a coroutine that awaits ag.athrow(...) / ag.aclose() is raised in the async
